@@ -1,15 +1,20 @@
 --------------------------- MODULE MC_Attrs ---------------------------
 EXTENDS Attrs, Json
 CONSTANTS MaxAttrs, EmitCases
-VARIABLES f, as
+VARIABLES f, as, sep
 
-Init == f \in Families /\ as = <<>>
-Add == Len(as) < MaxAttrs /\ \E a \in Atoms(f) : as' = Append(as, a) /\ UNCHANGED f
+\* how the list is laid out on the item: adjacent attributes, or a foreign attribute before, between and after them
+Seps == {"adjacent", "doc", "allow"}
+
+Init == f \in Families /\ as = <<>> /\ sep \in Seps
+Add == Len(as) < MaxAttrs /\ \E a \in Atoms(f) : as' = Append(as, a) /\ UNCHANGED <<f, sep>>
 Next == Add
-Spec == Init /\ [][Next]_<<f, as>>
+Spec == Init /\ [][Next]_<<f, as, sep>>
 
 Rev(s) == [i \in 1..Len(s) |-> s[Len(s) + 1 - i]]
 P_C17_OrderFree == Result(f, as) = Result(f, Rev(as))
 P_C17_Reject    == RejectLaw(f, as)
-Emit == EmitCases /\ as # <<>> => PrintT(<<"CASE", ToJson([f |-> f, as |-> as, res |-> Result(f, as)])>>)
+P_C17_Foreign   == ForeignFree(f, as)
+Emit == EmitCases /\ as # <<>> => PrintT(<<"CASE", ToJson([f |-> f, as |-> as, sep |-> sep,
+                                                                   res |-> IF sep = "adjacent" THEN Result(f, as) ELSE ResultF(f, Interleave(as))])>>)
 =============================================================================
